@@ -1423,25 +1423,29 @@ namespace igris
         //         push_back(a);
         // }
 
-        vector(const vector &other) : m_size(other.m_size)
+        // the constructors below delegate to the default constructor: once
+        // it has run the object exists, so if an element constructor or an
+        // allocation throws in the body the destructor releases what was
+        // built so far
+        vector(const vector &other) : vector()
         {
-            m_size = other.m_size;
             if (other.m_size == 0)
             {
                 return;
             }
 
-            m_data = m_alloc.allocate(m_size);
-            m_capacity = m_size;
+            m_data = m_alloc.allocate(other.m_size);
+            m_capacity = other.m_size;
             for (auto ip = other.m_data, op = m_data;
                  ip != other.m_data + other.m_size;
                  ip++, op++)
             {
                 igris::constructor(op, *ip);
+                m_size++;
             }
         }
 
-        template <class I, class O> vector(I first, O last)
+        template <class I, class O> vector(I first, O last) : vector()
         {
             if (first == last)
                 return;
@@ -1501,13 +1505,12 @@ namespace igris
             return *this;
         }
 
-        vector(size_t sz) : m_data(nullptr), m_capacity(0), m_size(0)
+        vector(size_t sz) : vector()
         {
             resize(sz);
         }
 
-        vector(iterator a, const iterator b)
-            : m_data(nullptr), m_capacity(0), m_size(0)
+        vector(iterator a, const iterator b) : vector()
         {
             while (a != b)
             {
